@@ -327,18 +327,9 @@ def relabel_spec(obsx: dict, kinds: list) -> dict:
 
 
 def diff_proj(a: dict, b: dict) -> list:
-    """a: relabelled expectation of the specification, b: projection of the real IR.
-    Whether a FUNCTION INPUT carries value information is left out of the comparison: the design model applies
-    FunctionProto.value_info to function inputs, the pinned code does not (a C02 finding, irrelevant to C17)."""
+    """a: relabelled expectation of the specification, b: projection of the real IR."""
     out = [k for k in a["o"] if a["o"][k] != b["o"].get(k)]
-    out += [k for k in ("nSubs", "vConst") if a.get(k) != b.get(k)]
-    skip = set()
-    for g, kind in enumerate(a.get("gKinds", ())):
-        if kind == "func":
-            skip.update(a["o"]["gIn"][g])
-    ha, hb = a.get("vHasInfo", []), b.get("vHasInfo", [])
-    if len(ha) != len(hb) or any(x != y for i, (x, y) in enumerate(zip(ha, hb), start=1) if i not in skip):
-        out.append("vHasInfo")
+    out += [k for k in ("nSubs", "vConst", "vHasInfo") if a.get(k) != b.get(k)]
     return out
 
 
